@@ -10,6 +10,7 @@ fn usage() -> ! {
 macro_rules! dispatch {
     ($id:expr, $f:ident, $($arg:expr),*) => {
         match $id {
+            "C10" => $f(&props::c10::C10, $($arg),*),
             "C12" => $f(&props::c12::C12, $($arg),*),
             "C13" => $f(&props::c13::C13, $($arg),*),
             "C14" => $f(&props::c14::C14, $($arg),*),
